@@ -8,6 +8,7 @@ mod hand;
 mod proto;
 mod rng;
 mod search;
+mod search_mods;
 
 use proto::*;
 use std::io::{BufRead, Write};
